@@ -94,7 +94,13 @@ class _Clock(dt.datetime):
     @classmethod
     def now(cls, tz=None):
         n = cls._now
-        return n if tz is not None else n.replace(tzinfo=None)
+        if tz is not None:
+            return n.astimezone(tz)
+        # naive now() is LOCAL wall-clock time: it follows the time zone of the process
+        try:
+            return dt.datetime.fromtimestamp(n.timestamp())
+        except (OverflowError, OSError, ValueError):
+            return n.replace(tzinfo=None)
 
 
 _DATES = st.one_of(
